@@ -1584,7 +1584,8 @@ std::string convert_to_string(std::ios_base::fmtflags flags, const integer<nbits
 		}
 	}
 	else {
-		using Integer = integer<nbits + 1, BlockType, NumberType>;  // nbits+1 to be able to represent maxneg in 2's complement form
+		// nbits+1 to be able to represent maxneg in 2's complement form, and at least a full block to be able to represent block10
+		using Integer = integer<(nbits < IntegerBase::bitsInBlock ? IntegerBase::bitsInBlock : nbits + 1), BlockType, NumberType>;
 
 		Integer t(n);
 		if constexpr (NumberType == IntegerNumberType::IntegerNumber) {
